@@ -48,7 +48,7 @@ func init() {
 		Title: "server adapters pass the envelope depth of their method",
 		Text: "The leadingScopeToIgnore constant each Register* passes to registerMethodWithBody equals the depth at which the entity's own fields start: depth of the request unmarshaler's envelope " +
 			"(plain entity 0; *Elements[V] 2 = key + array index; batchEntities 2 = key + map key) plus 1 when the registered Method constant is a partial-update method (the `patch` key).",
-		Props: []string{"C07"},
+		Props: []string{"C07", "C11"},
 		Floor: map[string]int{"v2": 8, "root": 7},
 		Run:   runR073,
 	})
@@ -653,49 +653,68 @@ func runR073(c *core.Ctx) {
 
 func runR074(c *core.Ctx) {
 	data := dataPkgRel(c)
+	type bodyOf struct {
+		body *ast.BlockStmt
+		inf  *types.Info
+	}
 	check := func(rel, fnName string) {
-		inf := info(c, rel)
 		_, fd := mustDecl(c, rel, fnName)
+		// the request marshaler is the function's own code plus, when the body was given a name, the methods of the
+		// module types it constructs (conversion or literal) and the named functions it passes along as values
+		work := []bodyOf{{fd.Body, info(c, rel)}}
+		seen := map[*ast.BlockStmt]bool{fd.Body: true}
+		add := func(b *ast.BlockStmt, inf *types.Info) {
+			if b != nil && !seen[b] && len(work) < 12 {
+				seen[b] = true
+				work = append(work, bodyOf{b, inf})
+			}
+		}
 		sites, okAll := 0, true
 		why := ""
-		ast.Inspect(fd.Body, func(n ast.Node) bool {
-			call, ok := n.(*ast.CallExpr)
-			if !ok {
-				return true
+		for i := 0; i < len(work); i++ {
+			inf := work[i].inf
+			for _, mb := range constructedTypeMethods(c, inf, work[i].body) {
+				add(mb.body, mb.inf)
 			}
-			cf := core.Callee(inf, call)
-			if cf == nil || cf.Pkg() == nil || cf.Pkg().Path() != pkgPath(c, "restlicodec") {
-				return true
-			}
-			if core.NameOf(cf) != "WriteArray" && core.NameOf(cf) != "WriteGenericMap" && core.NameOf(cf) != "WriteMap" {
-				return true
-			}
-			if sig := cf.Type().(*types.Signature); sig.Recv() != nil {
-				return true // the Writer method, not the generic helper
-			}
-			sites++
-			m := core.Unparen(call.Args[len(call.Args)-1])
-			fl, isLit := m.(*ast.FuncLit)
-			if !isLit {
-				okAll = false
-				why = "the element marshaler " + core.ExprString(m) + " receives the envelope-scoped writer"
-				return true
-			}
-			reset := false
-			ast.Inspect(fl.Body, func(x ast.Node) bool {
-				if sc, ok := x.(*ast.CallExpr); ok {
-					if sf := core.Callee(inf, sc); sf != nil && core.NameOf(sf) == "SetScope" && len(sc.Args) == 0 {
-						reset = true
+			ast.Inspect(work[i].body, func(n ast.Node) bool {
+				call, ok := n.(*ast.CallExpr)
+				if !ok {
+					return true
+				}
+				cf := core.Callee(inf, call)
+				if cf == nil || cf.Pkg() == nil || cf.Pkg().Path() != pkgPath(c, "restlicodec") {
+					return true
+				}
+				if core.NameOf(cf) != "WriteArray" && core.NameOf(cf) != "WriteGenericMap" && core.NameOf(cf) != "WriteMap" {
+					return true
+				}
+				if sig := cf.Type().(*types.Signature); sig.Recv() != nil {
+					return true // the Writer method, not the generic helper
+				}
+				sites++
+				m := core.Unparen(call.Args[len(call.Args)-1])
+				_, body, binf := core.FuncValueOf(c.M, inf, m)
+				if body == nil {
+					okAll = false
+					why = "the element marshaler " + core.ExprString(m) + " receives the envelope-scoped writer"
+					return true
+				}
+				reset := false
+				ast.Inspect(body, func(x ast.Node) bool {
+					if sc, ok := x.(*ast.CallExpr); ok {
+						if sf := core.Callee(binf, sc); sf != nil && core.NameOf(sf) == "SetScope" && len(sc.Args) == 0 {
+							reset = true
+						}
 					}
+					return true
+				})
+				if !reset {
+					okAll = false
+					why = "the element marshaler does not call SetScope() on its writer"
 				}
 				return true
 			})
-			if !reset {
-				okAll = false
-				why = "the element marshaler does not call SetScope() on its writer"
-			}
-			return true
-		})
+		}
 		c.Check(sites > 0 && okAll, rel, fnName, "nested entities are marshaled with a scope reset (SetScope())", fd.Pos(), "", why)
 	}
 	check("restli", "batchCreate")
